@@ -238,7 +238,7 @@ package actor
 
 //@ func (Inboxer).Stop()
 //@   abstract
-//@   requires[C02.stop.only-worker-or-unstarted-owner] tok || startPerm
+//@   requires[C02.stop.only-worker-or-unstarted-owner] tok || startPerm || anyoneMayStop
 //@   modifies stoppedByMe
 //@   emits InboxStop(self)
 //@   ensures stoppedByMe
@@ -584,6 +584,11 @@ package actor
 //@ ghost var stoppedByMe Bool
 //@ ghost var published Bool
 //@ ghost var handoff Bool
+// anyoneMayStop: the stop policy of the inbox a caller of Inboxer.Stop owns.
+// False for process inboxes (only the worker or the unstarted owner stops
+// them: what C02 relies on); remote stream writers stop their inbox from other
+// goroutines and assume it true (their inbox is outside the C02 claim).
+//@ ghost var anyoneMayStop Bool
 
 //@ protocol Inbox(in)
 //@   shared in.procStatus, in.rb.len, in.proc, tokens, wakers
@@ -888,3 +893,11 @@ package actor
 //@   trusted
 //@   pure
 //@   ensures result == hk(pid.Address + pid.ID)
+
+// Engine.Spawn (options, random id, newProcess, SpawnProc) is not verified;
+// callers in other packages see it as: registers and starts a process through
+// the engine, returns its PID.
+//@ func (*Engine).Spawn(p, kind, opts)
+//@   trusted
+//@   modifies heap except private, log, loglen
+//@   ensures result != nil
